@@ -690,6 +690,27 @@ fn drop_vec(ob: &mut Option<ObservableVector<Tracked>>, mon: &mut Mon) -> Result
 }
 
 fn step_vop(ob: &mut ObservableVector<Tracked>, vop: &VOp, mon: &mut Mon) -> Result<(), Div> {
+    // a wrong view through the transaction handle (C07/C17) does not end the history: the model adopts what
+    // the handle shows and the transaction runs on, so that what reaches the subscribers is judged as well
+    let mut soft: Option<Div> = None;
+    let r = step_vop_inner(ob, vop, mon, &mut soft);
+    match (r, soft) {
+        (r, None) => r,
+        (Ok(()), Some(s)) => Err(s),
+        (Err(d), Some(s)) => {
+            let mut tags: Vec<&str> = s.prop.split('|').collect();
+            for t in d.prop.split('|') {
+                if !tags.contains(&t) {
+                    tags.push(t);
+                }
+            }
+            let prop: &'static str = Box::leak(tags.join("|").into_boxed_str());
+            Err(Div { prop, what: format!("{} (earlier: {})", d.what, s.what) })
+        }
+    }
+}
+
+fn step_vop_inner(ob: &mut ObservableVector<Tracked>, vop: &VOp, mon: &mut Mon, soft: &mut Option<Div>) -> Result<(), Div> {
     let before = contents(ob);
     let before_v = vals(&before);
     let n0 = mon.msgs.len();
@@ -699,7 +720,7 @@ fn step_vop(ob: &mut ObservableVector<Tracked>, vop: &VOp, mon: &mut Mon) -> Res
             let mut certain = 0usize; // recorded changes that any implementation has to publish
             let mut any_clear = false;
             let mut tx = ob.transaction();
-            let phase = |tx: &mut eyeball_im::ObservableVectorTransaction<'_, Tracked>,
+            let mut phase = |tx: &mut eyeball_im::ObservableVectorTransaction<'_, Tracked>,
                              ops: &[VOp],
                              work: &mut Vec<u32>,
                              certain: &mut usize,
@@ -731,10 +752,13 @@ fn step_vop(ob: &mut ObservableVector<Tracked>, vop: &VOp, mon: &mut Mon) -> Res
                     if seen != *work {
                         // the pending changes are visible through the handle (C07), and a transaction
                         // mutator changes the contents like the same operation on a plain vector (C17)
-                        return div(
-                            "C07|C17",
-                            format!("through the transaction handle after {}: {:?}, model {:?}", op.show(), seen, work),
-                        );
+                        let what = format!("through the transaction handle after {}: {:?}, model {:?}", op.show(), seen, work);
+                        note_divergence("C07|C17", &what);
+                        if soft.is_some() {
+                            return Err(soft.take().unwrap());
+                        }
+                        *soft = Some(Div { prop: "C07|C17", what });
+                        *work = seen;
                     }
                     mon.poll_ref();
                     mon.take_fault()?;
